@@ -619,6 +619,9 @@ func checkSpelling(c *vk.Ctx, name string) {
 
 var legacyFormats = []struct{ name, text string }{
 	{"heap", "heap profile: 1: 1024 [1: 1024] @ heapprofile\n1: 1024 [1: 1024] @ %s\n"},
+	// allocation totals that differ from the in-use ones: four sample types, still a heap profile
+	{"heap+alloc", "heap profile: 1: 1024 [3: 4096] @ heapprofile\n1: 1024 [3: 4096] @ %s\n"},
+	{"growth", "heap profile: 1: 1024 [1: 1024] @ growthz\n1: 1024 [1: 1024] @ %s\n"},
 	{"contention", "--- contentionz 1 ---\ncycles/second = 1000000000\nsampling period = 1\n100 1 @ %s\n"},
 	{"goroutine", "goroutine profile: total 1\n1 @ %s\n"},
 }
@@ -694,6 +697,24 @@ func checkLegacy(c *vk.Ctx, fi, ni int) {
 		if len(p.Sample) != 1 || len(p.Sample[0].Location) != len(form) || p.DropFrames == "" {
 			c.Count("legacy/not-as-expected", 1)
 			continue
+		}
+		// the built-in table is the one of the profile's kind: allocator frames for heap profiles, lock
+		// frames for contention profiles, the CPU profiler's own frames for everything else
+		kind := "cpu"
+		switch legacyFormats[fi].name {
+		case "heap", "heap+alloc", "growth":
+			kind = "alloc"
+		case "contention":
+			kind = "lock"
+		}
+		for _, rep := range [][2]string{{"alloc", "malloc"}, {"lock", "RecordLockProfileData"}, {"cpu", "ProfileData::Add"}} {
+			f, e := newFull(p.DropFrames)
+			if e == nil && f.match(rep[1]) != (rep[0] == kind) {
+				c.Violationf("legacy/table-of-another-kind", Case{Family: "legacy", Ids: legacyFormats[fi].name, Drop: p.DropFrames}, "a %s profile: drop_frames names %q = %v", legacyFormats[fi].name, rep[1], f.match(rep[1]))
+			}
+		}
+		if k, e := newFull(p.KeepFrames); (p.KeepFrames != "" && e == nil && k.match("runtime.panic")) != (kind == "alloc") {
+			c.Violationf("legacy/table-of-another-kind", Case{Family: "legacy", Ids: legacyFormats[fi].name, Keep: p.KeepFrames}, "a %s profile: keep_frames %q", legacyFormats[fi].name, p.KeepFrames)
 		}
 		if f, e := newFull(p.DropFrames); e == nil && f.match(simplify(x)) {
 			c.Count("legacy/named", 1)
